@@ -197,12 +197,29 @@ func scenRoundTrip(r *Run, job *Job, prop string) {
 			return ib
 		}
 	})
+	// a caller that reads a large answer slowly (64 KiB receive buffer, a pause after the first 100 000 bytes) while
+	// the next caller is already being served
+	slowAt := -1
+	if prop == "C01" && nInv >= 2 && t.Chance(1, 6) {
+		slowAt = t.Draw(nInv - 1)
+		for _, k := range []int{slowAt, slowAt + 1} {
+			if plans[k].mode == "ok" || plans[k].mode == "oversize" {
+				plans[k].mode = "ok"
+				plans[k].respSize = 700000 + t.Draw(600000)
+				plans[k].resp = genBytes(rng, 0, plans[k].respSize, fmt.Sprintf("resp%d", k+1))
+			}
+		}
+	}
 	var desc []string
-	for _, p := range plans {
-		e.Plan = append(e.Plan, InvSpec{Payload: p.payload, CliCtx: p.cliCtx, Trace: p.trace})
+	for i, p := range plans {
+		spec := InvSpec{Payload: p.payload, CliCtx: p.cliCtx, Trace: p.trace}
+		if i == slowAt {
+			spec.SlowAfter, spec.SlowPause = 100000, 300*time.Millisecond
+		}
+		e.Plan = append(e.Plan, spec)
 		desc = append(desc, fmt.Sprintf("%s(ev=%d/%d,resp=%d,polls=%d,ctx=%d)", p.mode, p.evSize, p.evClass, p.respSize, p.polls, len(p.cliCtx)))
 	}
-	r.Desc = fmt.Sprintf("%s T=%ds fn=%q exts=%v init=%v plan=%v", prop, timeoutSec, fn, exts, initStall, desc)
+	r.Desc = fmt.Sprintf("%s T=%ds fn=%q exts=%v init=%v slow=%d plan=%v", prop, timeoutSec, fn, exts, initStall, slowAt, desc)
 	r.Logf("%s", r.Desc)
 	e.Stuck = func() { r.Failf(prop+".hang", "plan did not finish within the bound") }
 	e.Run()
@@ -307,7 +324,11 @@ func judgeRoundTrip(r *Run, w *World, e *Engine, prop string, plans []*rtPlan, f
 			if i+1 < len(w.Invokes) {
 				next := w.Invokes[i+1]
 				for _, q := range w.Sup.Requests() {
-					if q.Step > inv.DispStep && q.Step <= next.Call.EndStep && plans[i+1].mode != "stall" && plans[i+1].mode != "exit" {
+					end := next.Call.EndStep
+					if next.AnswerStep > 0 && next.AnswerStep < end {
+						end = next.AnswerStep // (a slow reader finishes reading long after its invocation was answered)
+					}
+					if q.Step > inv.DispStep && q.Step <= end && plans[i+1].mode != "stall" && plans[i+1].mode != "exit" {
 						r.Failf(prop+".oversize-reset", "supervisor request %s between the oversized invocation %d and the next one", q, inv.N)
 					}
 				}
